@@ -98,6 +98,18 @@ type RouteError struct {
 	Err   string   `json:"err"`
 }
 
+// Retained is an outgoing payload a connector configured with mark_read_only marked read-only and
+// kept: its bytes when it was sent and (after Env.Settle) at the end.
+type Retained struct {
+	Seq    int64   `json:"seq"`
+	Key    string  `json:"key"`
+	Inst   int     `json:"inst"`
+	Tag    string  `json:"tag"`
+	AtSend []byte  `json:"-"`
+	AtEnd  []byte  `json:"-"`
+	Kept   Payload `json:"-"`
+}
+
 // Instance keys.
 
 func RecvKey(sig Signal, id string) string { return "receiver:" + string(sig) + ":" + id }
@@ -156,6 +168,7 @@ type Env struct {
 
 	asyncPanics []AsyncPanic
 	routeErrors []RouteError
+	retained    []*Retained
 
 	shared *sharedcomponent.Map[component.ID, *sharedRecv]
 	async  sync.WaitGroup
@@ -187,7 +200,7 @@ func NewEnv(opts Options) *Env {
 func (e *Env) Reset() {
 	e.mu.Lock()
 	defer e.mu.Unlock()
-	e.events, e.deliveries, e.visits, e.asyncPanics, e.routeErrors = nil, nil, nil, nil, nil
+	e.events, e.deliveries, e.visits, e.asyncPanics, e.routeErrors, e.retained = nil, nil, nil, nil, nil, nil
 	e.creates = map[string]int{}
 	e.injectors = map[string]*Injector{}
 	e.failStart, e.failStop = map[string]error{}, map[string]error{}
@@ -256,6 +269,20 @@ func (e *Env) deliver(d *Delivery) {
 	d.Seq = seq.Add(1)
 	e.deliveries = append(e.deliveries, d)
 	e.mu.Unlock()
+}
+
+func (e *Env) retain(r *Retained) {
+	e.mu.Lock()
+	r.Seq = seq.Add(1)
+	e.retained = append(e.retained, r)
+	e.mu.Unlock()
+}
+
+// Retained returns the payloads connectors marked read-only and kept (AtEnd is filled by Settle).
+func (e *Env) Retained() []*Retained {
+	e.mu.Lock()
+	defer e.mu.Unlock()
+	return append([]*Retained(nil), e.retained...)
 }
 
 func (e *Env) routeError(r RouteError) {
@@ -384,6 +411,11 @@ func (e *Env) Settle() {
 	for _, d := range ds {
 		if d.HasKept && d.AtEnd == nil {
 			d.AtEnd = d.Kept.Marshal()
+		}
+	}
+	for _, r := range e.Retained() {
+		if r.AtEnd == nil {
+			r.AtEnd = r.Kept.Marshal()
 		}
 	}
 }
